@@ -2,7 +2,7 @@
 import vlib
 from checkflow import Interactive
 from props import hc_common as H
-from gen_hc import Sim, Net, pick_cfg, random_traffic, pick_len
+from gen_hc import Sim, Net, pick_cfg, random_traffic, pick_len, F
 
 PROP = "C01"
 LAKE_TARGETS = ["Uflow.Props.C01", "Uflow.Props.C01Sys", "Uflow.Props.C01Hc", "uflow_driver"]
@@ -123,6 +123,34 @@ def streams(rng, tier, ctx):
                 sim.meta = {"cfg": cfg}
             elif i % 4 == 3:
                 sim = long_lead_scenario(r, it)
+            elif i % 8 == 4:
+                # fragment bookkeeping: packets of 3..6 fragments whose last fragment is lost at first, while fragment 0 arrives twice,
+                # the second copy after later fragments have been written (order 0, 1, 0, 2, ...): nothing may be delivered before
+                # the resend brings the missing fragment, and then the submitted bytes exactly
+                cfg = pick_cfg(r); cfg["bwA"] = cfg["bwB"] = 20_000_000; cfg["allocA"] = cfg["allocB"] = 1_000_000
+                sim = Sim(r, cfg, inter=it)
+                ok = Net(latency=1_000_000)
+                lost_once = set()
+                def fate(sim, ep, idx, f, lost_once=lost_once):
+                    if ep != "A" or f["kind"] != "D" or len(f["dgs"]) != 1:
+                        return None
+                    d = f["dgs"][0]
+                    if d["last"] < 2:
+                        return None
+                    if d["frag"] == d["last"] and (d["seq"], d["frag"]) not in lost_once:
+                        lost_once.add((d["seq"], d["frag"])); return []
+                    if d["frag"] == 0:
+                        return [1_000_000, r.pick([25_000_000, 40_000_000, 60_000_000])]
+                    return [1_000_000 + 10_000_000 * d["frag"]]
+                sim.fate_fn = fate
+                def tr(sim, ep):
+                    if ep == "A" and sim.tick % 12 == 1 and sim.tick < 100:
+                        sim.send("A", r.below(3), r.pick([3, 3, 2]), F * r.range(2, 5) + r.range(1, F))
+                        if r.chance(1, 3):
+                            sim.send("A", r.below(3), r.pick([1, 3]), r.range(10, 900))
+                sim.run(r.range(120, 200), 5_000_000, ok, ok, tr)
+                sim.fate_fn = None
+                sim.meta = {"cfg": cfg}
             else:
                 sim = H.lossy_scenario(r, it, tier, small_volume=False, chans=r.pick([4, 4, 64]))
             H.finish(sim, drain=True, max_ticks=300)
